@@ -45,6 +45,7 @@ enum {
     F_ERASE_MIDDLE,
     F_POP_FRONT_N_PARTIAL,
     F_POP_FRONT_N_HUGE,
+    F_HUGE_LIST,
     F_SLICED_SWAP,
     F_SORT_TIES,
     F_COPY_REALLOC,
@@ -501,7 +502,7 @@ static void array_op(struct mon_rng *r, unsigned phase) {
         unsigned k = (unsigned)mon_below(r, 3);
         pick = k == 0 ? 43 : k == 1 ? 60 : 67; /* pop_back / erase / pop_front_n */
     }
-    aws_reset_error();
+    mon_poison_last_error(&mon_case_rng);
     if (pick < 23) { /* ------------------------------------------------ push_back */
         s_op = "push_back";
         mon_fp(1 + 64 * (uint64_t)which);
@@ -1045,6 +1046,9 @@ static bool run_array_case(uint64_t case_idx) {
     size_t nops = 10 + (size_t)mon_below(r, 141);
     size_t done = 0;
     for (size_t op = 0; op < nops && mon_violations() == v0; ++op) {
+        if (mon_chance(r, 1, 3)) {
+            mon_poison_last_error(r);
+        }
         s_opno = op + 1;
         array_op(r, (unsigned)((op * 4) / nops));
         check_all();
@@ -1507,6 +1511,9 @@ static bool run_linked_case(uint64_t case_idx) {
     size_t nops = 10 + (size_t)mon_below(r, 141);
     size_t done = 0;
     for (size_t op = 0; op < nops && mon_violations() == v0; ++op) {
+        if (mon_chance(r, 1, 3)) {
+            mon_poison_last_error(r);
+        }
         linked_op(r, (unsigned)((op * 4) / nops));
         if (!linked_check_all()) {
             break;
@@ -1518,6 +1525,150 @@ static bool run_linked_case(uint64_t case_idx) {
 }
 
 /* ====================================================================================== main */
+
+
+/* ------------------------------------------------------------------ dynamic lists whose storage passes 4 GiB
+ * The allocator reserves address space only (mmap, MAP_NORESERVE) and records the sizes asked for; a handful of pages
+ * at both ends are touched. One growth step from a small list: what is checked is the size arithmetic, not the copy. */
+#include <sys/mman.h>
+#define HUGE_SLOTS 4
+static struct {
+    void *addr;
+    size_t len;
+} s_hblk[HUGE_SLOTS];
+static int s_hacq, s_hrel;
+
+static void *huge_acquire(struct aws_allocator *a, size_t size) {
+    (void)a;
+    for (int i = 0; i < HUGE_SLOTS; ++i) {
+        if (!s_hblk[i].addr) {
+            void *p = mmap(NULL, size, PROT_READ | PROT_WRITE, MAP_PRIVATE | MAP_ANONYMOUS | MAP_NORESERVE, -1, 0);
+            if (p == MAP_FAILED) {
+                return NULL;
+            }
+            s_hblk[i].addr = p;
+            s_hblk[i].len = size;
+            ++s_hacq;
+            return p;
+        }
+    }
+    return NULL;
+}
+
+static void huge_release(struct aws_allocator *a, void *p) {
+    (void)a;
+    for (int i = 0; p && i < HUGE_SLOTS; ++i) {
+        if (s_hblk[i].addr == p) {
+            munmap(p, s_hblk[i].len);
+            s_hblk[i].addr = NULL;
+            ++s_hrel;
+            return;
+        }
+    }
+}
+
+static size_t huge_block_len(const void *p) {
+    for (int i = 0; i < HUGE_SLOTS; ++i) {
+        if (s_hblk[i].addr == p) {
+            return s_hblk[i].len;
+        }
+    }
+    return 0;
+}
+
+static struct aws_allocator s_huge_alloc = {.mem_acquire = huge_acquire, .mem_release = huge_release, .mem_realloc = NULL, .mem_calloc = NULL, .impl = NULL};
+
+static bool run_huge_array_case(uint64_t case_idx) {
+    struct mon_rng *r = &mon_case_rng;
+    static const size_t ITEMS[] = {1, 8, 24, 300};
+    static const size_t BYTES[] = {((size_t)1 << 32) + 40, (size_t)1 << 32, ((size_t)1 << 32) - 8, (size_t)3 << 31, ((size_t)1 << 33) + 600, ((size_t)5 << 30) + 24};
+    size_t item = ITEMS[mon_below(r, 4)];
+    size_t target = BYTES[mon_below(r, 6)];
+    size_t index = target / item;
+    (void)case_idx;
+    s_op = "huge";
+    mon_fp(0xB16);
+    mon_fp(item);
+    mon_fp(target);
+    memset(s_hblk, 0, sizeof(s_hblk));
+    s_hacq = s_hrel = 0;
+    void *probe = mmap(NULL, target + item + 4096, PROT_READ | PROT_WRITE, MAP_PRIVATE | MAP_ANONYMOUS | MAP_NORESERVE, -1, 0);
+    if (probe == MAP_FAILED) {
+        mon_count("huge_list_skipped_no_address_space", 1);
+        return false;
+    }
+    munmap(probe, target + item + 4096);
+    struct aws_array_list l;
+    size_t init_items = (size_t)mon_below(r, 6);
+    if (aws_array_list_init_dynamic(&l, &s_huge_alloc, init_items, item)) {
+        mon_violation("C09:huge:init", "init_dynamic(%zu items of %zu bytes) failed", init_items, item);
+        return false;
+    }
+    uint8_t buf[304], got[304];
+    size_t npush = 1 + (size_t)mon_below(r, 5);
+    for (size_t i = 0; i < npush; ++i) {
+        memset(buf, (int)(0x30 + i), item);
+        if (aws_array_list_push_back(&l, buf)) {
+            mon_violation("C09:huge:push", "push_back %zu failed", i);
+        }
+    }
+    unsigned how = (unsigned)mon_below(r, 2);
+    int rc;
+    memset(buf, 0xC7, item);
+    if (how == 0) {
+        rc = aws_array_list_ensure_capacity(&l, index);
+        if (rc == AWS_OP_SUCCESS && (aws_array_list_capacity(&l) <= index || huge_block_len(l.data) < (index + 1) * item)) {
+            mon_violation("C09:huge:capacity", "item_size %zu: ensure_capacity(index %zu, byte offset %zu) reported success; capacity is %zu items, the block has %zu bytes",
+                          item, index, index * item, aws_array_list_capacity(&l), huge_block_len(l.data));
+            aws_array_list_clean_up(&l);
+            return true;
+        }
+        if (rc == AWS_OP_SUCCESS) {
+            rc = aws_array_list_set_at(&l, buf, index);
+        }
+    } else {
+        rc = aws_array_list_set_at(&l, buf, index);
+    }
+    if (rc != AWS_OP_SUCCESS) {
+        mon_violation("C09:huge:growth-refused", "item_size %zu: %s to index %zu (byte offset %zu) failed with error %d although the address space is available", item,
+                      how == 0 ? "ensure_capacity + set_at" : "set_at", index, index * item, aws_last_error());
+    } else {
+        size_t cap = aws_array_list_capacity(&l);
+        size_t blk = huge_block_len(l.data);
+        if (cap <= index || l.current_size < (index + 1) * item || blk < (index + 1) * item) {
+            mon_violation("C09:huge:capacity",
+                          "item_size %zu: after growing to index %zu (byte offset %zu) capacity is %zu items, current_size %zu, the block obtained from the allocator has %zu bytes",
+                          item, index, index * item, cap, l.current_size, blk);
+        } else {
+            if (aws_array_list_length(&l) != index + 1) {
+                mon_violation("C09:huge:length", "length %zu after set_at(%zu)", aws_array_list_length(&l), index);
+            }
+            if (aws_array_list_get_at(&l, got, index) || memcmp(got, buf, item)) {
+                mon_violation("C09:huge:contents", "item_size %zu: element %zu read back differs from what set_at stored", item, index);
+            }
+            for (size_t i = 0; i < npush; ++i) {
+                memset(buf, (int)(0x30 + i), item);
+                if (aws_array_list_get_at(&l, got, i) || memcmp(got, buf, item)) {
+                    mon_violation("C09:huge:contents", "item_size %zu: element %zu did not survive the growth to %zu bytes", item, i, l.current_size);
+                    break;
+                }
+            }
+            if (aws_array_list_back(&l, got) || memcmp(got, "\xC7", 1)) {
+                mon_violation("C09:huge:contents", "back() differs from the element stored at index %zu", index);
+            }
+            if (aws_array_list_get_at(&l, got, index + 1) == AWS_OP_SUCCESS) {
+                mon_violation("C09:array:bad-index-accepted", "get_at(length) succeeded at length %zu", index + 1);
+            }
+        }
+    }
+    aws_array_list_clean_up(&l);
+    if (s_hacq != s_hrel) {
+        mon_violation("C09:huge:allocator-balance", "%d blocks obtained, %d released", s_hacq, s_hrel);
+    }
+    mon_flag(F_HUGE_LIST);
+    mon_count("huge_lists_4GiB_and_more", 1);
+    return true;
+}
 
 int main(int argc, char **argv) {
     mon_init(argc, argv, "C09");
@@ -1535,6 +1686,7 @@ int main(int argc, char **argv) {
         {F_ERASE_MIDDLE, "erase_middle"},
         {F_POP_FRONT_N_PARTIAL, "pop_front_n_partial"},
         {F_POP_FRONT_N_HUGE, "pop_front_n_huge_count"},
+        {F_HUGE_LIST, "dynamic_list_storage_4GiB_or_more"},
         {F_SLICED_SWAP, "sliced_swap_item_gt_128"},
         {F_SORT_TIES, "sort_with_ties"},
         {F_COPY_REALLOC, "copy_into_smaller_dynamic"},
@@ -1582,7 +1734,13 @@ int main(int argc, char **argv) {
     uint64_t c;
     while (mon_next_case(&c)) {
         mon_case_begin(c);
-        bool nontrivial = linked ? run_linked_case(c) : run_array_case(c);
+#ifdef DEBUG_BUILD
+        /* Debug builds fill every new allocation (AWS_ARRAY_LIST_DEBUG_FILL): a 4 GiB list would really use 4 GiB */
+        bool huge = false;
+#else
+        bool huge = !linked && c % 128 == 127;
+#endif
+        bool nontrivial = linked ? run_linked_case(c) : (huge ? run_huge_array_case(c) : run_array_case(c));
         mon_case_end(nontrivial);
     }
     if (!linked) {
